@@ -994,6 +994,155 @@ def c11(tier, rng, rep, only=None):
         rep.violation("self-check: no value re-entered", {"kind": "coverage"}, no_input=True)
 
 
+# ------------------------------------------------------------------------------------- C04 / C10
+
+def float_text(bits, is64):
+    import struct
+    if is64:
+        return repr(struct.unpack("<d", struct.pack("<Q", bits))[0])
+    x = struct.unpack("<f", struct.pack("<I", bits))[0]
+    return repr(x)
+
+
+def json_docs(d, rng, tier):
+    import json as js
+    fam = d.family()
+    vals = guardcorpus.inputs_for(d, rng, tier)
+    docs = []
+    junk = ["null", "true", "[1]", "{}", "", " ", "\"5\"", "1.5", "1e3", "-0", "7", " 7 ", "100", "101",
+            "99999999999999999999999999999999999999999999", "-99999999999999999999999999999999999999999999", "\"ab\"", "[]", "[1,2,3]",
+            "1e400", "-1e400", "NaN", "7.0", "-0.0", "1E-400", "\"\\ud800\"", "\"unterminated", "[1,\"a\"]", "[2147483648]"]
+    if fam == "int":
+        if len(vals) > 40:
+            vals = vals[:: max(1, len(vals) // 40)]
+        docs += [str(v[1]) for v in vals]
+    elif fam == "float":
+        is64 = FLOAT_TYPES[d.inner]
+        for v in vals:
+            if not is_nan_bits(v[1], is64):
+                t = float_text(v[1], is64)
+                if "inf" not in t:
+                    docs.append(t)
+    elif fam == "str":
+        if len(vals) > 60:
+            vals = vals[:: max(1, len(vals) // 60)]
+        for i, v in enumerate(vals):
+            docs.append(js.dumps(v[1], ensure_ascii=(i % 2 == 0)))
+    else:
+        docs += [js.dumps(v[1]) for v in vals]
+    return docs + junk
+
+
+def c04(tier, rng, rep, only=None):
+    decls = only if only is not None else corpus.gen_serde_decls(rng.fork("serde"), tier)
+
+    def ops_for(g, d, r):
+        docs = json_docs(d, r, tier)
+        ops = [("de_json", val_sexp(("s", x))) for x in docs]
+        ron_docs = [x for x in docs if x not in ("", " ")][:40]
+        ops += [("de_ron", val_sexp(("s", x))) for x in ron_docs]
+        # MessagePack: nil, true, fixints, u8 200, i8 -5, f32, f64, fixstr, arrays, truncated input
+        for bs in ([0xc0], [0xc3], [0x05], [0x7f], [0xcc, 200], [0xd0, 0xfb], [0xcd, 0x01, 0x00], [0xca, 0x3f, 0xc0, 0, 0],
+                   [0xcb, 0x40, 0x1c, 0, 0, 0, 0, 0, 0], [0xcb, 0x7f, 0xf8, 0, 0, 0, 0, 0, 0], [0xa2, 0x61, 0x42], [0xa0], [0xa1, 0x20],
+                   [0x92, 1, 2], [0x90], [0x93, 3, 0xff, 2], [0xcf, 0xff, 0xff, 0xff, 0xff, 0xff, 0xff, 0xff, 0xff], [0xd3, 0x80, 0, 0, 0, 0, 0, 0, 0],
+                   [0xcd], [], [0xa3, 0x61], [0x07], [0x64], [0x65], [0xca, 0x7f, 0x80, 0, 0]):
+            ops.append(("de_mp", "(b%s)" % "".join(" %d" % b for b in bs)))
+        # nested positions
+        some = [x for x in docs if x.strip()][:: max(1, len(docs) // 12)][:12]
+        for i in range(0, len(some) - 1, 2):
+            ops.append(("de_json_vec", val_sexp(("s", "[%s,%s]" % (some[i], some[i + 1])))))
+            ops.append(("de_json_map", val_sexp(("s", "{\"k\":%s,\"a\":%s}" % (some[i], some[i + 1])))))
+        for x in some:
+            ops.append(("de_json_opt", val_sexp(("s", x))))
+            ops.append(("de_json_struct", val_sexp(("s", "{\"a\":%s}" % x))))
+        ops.append(("de_json_opt", val_sexp(("s", "null"))))
+        ops.append(("de_json_vec", val_sexp(("s", "[]"))))
+        g.add_ops(d, ops)
+    g = make_guard_run(tier, rng, decls=decls, ops_for=ops_for, spec=False, wsname="serde")
+    run_guard(g, rep, rng)
+    n = 0
+    cls = {}
+    for c in g.cases:
+        if c.decl.id not in g.live or c.impl is None:
+            continue
+        n += 1
+        got, exp = c.impl, (c.extra[0] if c.extra else None)
+        if got == "panic":
+            rep.violation("%s(%s) panicked" % (c.op, c.arg), case_payload(c, g))
+            continue
+        nested = c.op.startswith("de_json_")
+        if nested:
+            kind = "ok" if got.startswith("Some") else "fail"
+            cls[(c.op, kind)] = cls.get((c.op, kind), 0) + 1
+            if got != exp:
+                rep.violation("%s(%s) gave %s but element-wise inner deserialization + constructor gives %s" % (c.op, c.arg, got, exp),
+                              case_payload(c, g, {"expected": exp}))
+            continue
+        fmt = c.op[3:]
+        g_ok = got.startswith("ok ")
+        kind = "ok" if g_ok else ("inner_fail" if exp == "de_err" else "ctor_reject")
+        cls[(c.decl.family() + "/" + fmt, kind)] = cls.get((c.decl.family() + "/" + fmt, kind), 0) + 1
+        if g_ok:
+            if got != exp:
+                rep.violation("%s(%s) produced %s; the inner value deserializes to %s and the constructor gives %s"
+                              % (c.op, c.arg, got, c.oracle, exp), case_payload(c, g, {"inner": c.oracle, "constructor": exp}))
+        else:
+            if exp is not None and exp.startswith("ok "):
+                rep.violation("%s(%s) failed (%s) although the inner value %s deserializes and the constructor accepts it"
+                              % (c.op, c.arg, got[:120], c.oracle), case_payload(c, g, {"inner": c.oracle, "constructor": exp}))
+            elif exp is not None and exp.startswith("err") and ("Expected valid %s" % c.decl.name) not in got:
+                rep.violation("serde error of a rejected value does not embed the validation message: %r" % got[:200], case_payload(c, g))
+        m_exp = c.model
+        m_got = "ok" if g_ok else ("parse_err" if exp == "de_err" else "err")
+        m_kind = None if m_exp is None else ("ok" if m_exp.startswith("ok") else ("parse_err" if m_exp == "parse_err" else "err"))
+        if m_kind is not None and (m_kind != m_got or (g_ok and m_exp != got)):
+            rep.violation("model and implementation differ on %s(%s): impl %s, model %s" % (c.op, c.arg, got[:100], m_exp), case_payload(c, g), no_input=True)
+    rep.coverage.update({"evaluations": n, "distinct_nontrivial": sum(v for (a, k), v in cls.items() if k != "ok"),
+                         "rule": "declarations deriving Serialize+Deserialize over all families (generic wrapper included); documents in JSON, RON (Name(..) around the inner document) and MessagePack: encodings of the C01 inputs, boundary / out-of-range numbers, wrong types, escapes, non-ASCII, lone surrogates, truncated input, and the same embedded in Vec / Option / struct field / map value; the real result is compared with the real inner type deserialized from the same document followed by the real constructor (same process) and with the model fed that inner result; formats are third-party code (partial)",
+                         "outcome_classes": {"%s/%s" % k: v for k, v in sorted(cls.items())}, "exhaustive": False})
+    for c in g.cases[:: max(1, len(g.cases) // 6 or 1)][:6]:
+        rep.samples.append({"decl": c.decl.id, "op": c.op, "arg": c.arg, "impl": c.impl[:80] if c.impl else None, "expected": c.extra[:1]})
+    for k in ("ok", "inner_fail", "ctor_reject"):
+        if not any(v for (a, kk), v in cls.items() if kk == k) and only is None:
+            rep.violation("self-check: no %s outcome" % k, {"kind": "coverage"}, no_input=True)
+
+
+def c10(tier, rng, rep, only=None):
+    decls = only if only is not None else [d for d in corpus.gen_serde_decls(rng.fork("serde"), tier) if c11_eligible(d)]
+
+    def ops_for(g, d, r):
+        vals = guardcorpus.inputs_for(d, r, tier)
+        if len(vals) > 60:
+            vals = vals[:: max(1, len(vals) // 60)]
+        g.add_ops(d, [("ser", val_sexp(v)) for v in vals])
+    g = make_guard_run(tier, rng, decls=decls, ops_for=ops_for, spec=False, wsname="serde")
+    run_guard(g, rep, rng)
+    n = 0
+    fields = {}
+    for c in g.cases:
+        if c.decl.id not in g.live or c.impl in (None, "rejected", "na"):
+            continue
+        if c.impl == "panic":
+            rep.violation("serialization panicked on %s" % c.arg, case_payload(c, g))
+            continue
+        n += 1
+        kv = parse_kv(c.impl) or {}
+        for k, v in kv.items():
+            fields[k] = fields.get(k, 0) + 1
+            if v != "1":
+                what = ("%s serialization of %s differs from the inner value's own encoding" % (k, c.arg) if not k.startswith("rt_")
+                        else "%s: deserializing the serialization of the value obtained from %s does not give the value back" % (k, c.arg))
+                rep.violation(what, case_payload(c, g))
+    rep.coverage.update({"evaluations": n, "distinct_nontrivial": n,
+                         "rule": "declarations deriving Serialize+Deserialize with built-in or idempotent sanitizers; every obtainable value of the C01 domains: JSON and MessagePack output byte-compared with the inner value's own encoding, RON compared with Name(<inner>); round trip through each format whenever the inner value itself round-trips",
+                         "checked_fields": fields, "exhaustive": False})
+    for c in g.cases[:: max(1, len(g.cases) // 6 or 1)][:6]:
+        rep.samples.append({"decl": c.decl.id, "arg": c.arg, "impl": c.impl})
+    for k in ("json", "mp", "ron", "rt_json", "rt_mp", "rt_ron"):
+        if not fields.get(k) and only is None:
+            rep.violation("self-check: %s never checked" % k, {"kind": "coverage"}, no_input=True)
+
+
 PROPS = {
     "C01": (["Props/C01.v"], c01, ["bound expressions evaluate without overflow (corpus keeps them in range)",
                                    "user closures are total functions (library of harness/rtgen.py)",
@@ -1016,6 +1165,10 @@ PROPS = {
     "C11": (["Props/C11.v", "Lemmas/UnicodeLemmas.v"], c11, ["Unicode tables are read off this toolchain's std by harness/unigen (regenerated in --setup); trim / case algorithms re-implemented in Gallina and diffed against std on every string of the corpus",
                                    "mixed built-in + custom sanitizer chains are outside the statement",
                                    "Display / Deserialize re-entry for non-string inner types relies on parse(display x) = x of the inner type (oracle)"]),
+    "C04": (["Props/C04.v"], c04, ["serde_json / ron / rmp-serde and the inner type's Deserialize are third-party code: their real results are the oracle (partial)",
+                                   "the model covers the glue: inner-then-constructor, error path, newtype-only visitor"]),
+    "C10": (["Props/C10.v"], c10, ["formats are third-party code (partial); wrap/unwrap of the newtype-struct layer is a parameter with unwrap (wrap x) = x",
+                                   "round trip is required only when the inner value itself round-trips in the format"]),
     "C06": (["Props/C06.v"], c06, ["the inner type's FromStr is an oracle (its real result is given to the model)",
                                    "`Any`/generic inner types with FromStr are not in the corpus yet"]),
 }
